@@ -251,7 +251,8 @@ CHECKS["C16"] = {
             "lemmas), hence setupX/updateX/evalX are each defined once (C16_function_names_distinct); each binding has its own index, its guard word index>>5 lies inside "
             "bindingGuard_[ceil(n/32)], the array is never zero-sized, two bindings never share a guard bit (C16_indices_distinct, C16_guard_covers, C16_guard_nonempty, "
             "C16_guard_bits_distinct); for EVERY source string the literal written into the header is read by a C++17 lexer (model of [lex.ccon]) as exactly that string "
-            "(C16_literal_denotes_source, after the repair of F9; the previous Rust-Debug spelling is refuted: C16_rust_debug_refuted). Decision of 'valid C++' on the "
+            "(C16_literal_denotes_source, after the repair of F9; observer slots: the observations inserted by the dependency analysis use exactly the handles "
+            "c_nobs(before)..c_nobs(after)-1, each once (C16_observer_slots), so the declared array covers every observed[k]; the previous Rust-Debug spelling is refuted: C16_rust_debug_refuted). Decision of 'valid C++' on the "
             "real output: every emitted header is compiled with g++ -std=c++17 -fsyntax-only against API declarations generated from the same class table, and scanned "
             "(functions defined once and every call resolves, index/guard/observer array sizes, includes, literals decoded and compared with the source strings); the "
             "speller of the model is compared with the literals of the real headers.",
@@ -297,7 +298,10 @@ CHECKS["C02"] = {
             "and which, after evaluating, is connected to every key it read (coverage: static connections plus re-connected observer slots) equals the value of its "
             "expression after setup() and after EVERY finite history of changes with notify -- re-pointing and nulling of intermediate pointers included, since they only "
             "change the read set (C02_stays_current, invariant Current /\\ nothing-read-changed-unobserved by induction over the history); without coverage a binding goes stale "
-            "(C02_stale_without_coverage_refuted). That the real generated code has frame and coverage is NOT proved: the property itself is decided on the real output "
+            "(C02_stale_without_coverage_refuted). COVERAGE is proved at the level of the IR for the model of tir/propdep.rs (model/Passes.v, tied to the implementation "
+            "token by token by the K legs of C05/C06/C07): after the dependency analysis, in every block every read of a non-constant property through a pointer is a "
+            "static dependency or is immediately preceded by the observation of that local with that notify signal (C02_dependency_complete_ir); the same coverage "
+            "predicate runs as a checker on the implementation's own analysed IR of generated programs. That the real generated C++ has frame and coverage is NOT proved: the property itself is decided on the real output "
             "per binding and history -- the support header is compiled against the API model (setters emit notify on change, connect/disconnect dispatch), setup() is "
             "run, a random history of changes (boundary values, re-pointing incl. cycles, nulling, no-op changes) is applied through the setters and after setup and "
             "after every step each target is compared with model/Sem.v's value of the source expression in the current world. Reads of non-constant properties without "
